@@ -294,3 +294,27 @@ package concurrency
 //@   at every call funcvalue ghost nfatal = nfatal + 1
 //@   at every before send assert [C12.chan.nosend] false
 //@   ensures [C12.fatal.iff] (nfatal == 1) <==> fired
+
+// AddCloser ("invokes every registered closer exactly once"): Run sets `closing` and takes the closers it invokes in one
+// critical section of mngr.lock; AddCloser therefore has to decide "accepted or rejected" in the SAME critical section in
+// which it appends (repaired defect 5f98304: the flag was only checked before the lock; a closer accepted in between was
+// never invoked). The unlocked first check is only a fast path for callers that arrive during the shutdown.
+//@ func (*RunnerCloserManager).AddCloser
+//@   tags C12
+//@   requires c != nil && c.mngr != nil
+//@   ghost decided bool
+//@   ghost closingseen bool
+//@   ghost nlock int
+//@   at entry ghost decided = false
+//@   at entry ghost closingseen = false
+//@   at entry ghost nlock = 0
+//@   at every call Lock ghost nlock = nlock + 1
+//@   at every call Lock ghost decided = false
+//@   at every call Load ghost decided = heldw(c.mngr.lock)
+//@   at every call Load ghost closingseen = res0
+//@   at every store closers assert [C12.addcloser.locked] heldw(c.mngr.lock) && decided && !closingseen && nlock == 1
+//@   at every load closers assert [C12.addcloser.reads.locked] heldw(c.mngr.lock)
+//@   ensures [C12.addcloser.rejects] closingseen ==> (result == ErrManagerAlreadyClosed && c.closers == old(c.closers))
+//@   ensures [C12.addcloser.onesection] nlock <= 1
+//@   loop 0 invariant [C12.addcloser.decided] c == old(c) && heldw(c.mngr.lock) && decided && !closingseen && nlock == 1
+//@   loop 0 invariant -1 <= rangeindex && rangeindex < len(closers)
